@@ -75,3 +75,23 @@ func NewLoader(class int, name string, ord int, doc []byte, log *mon.Lifecycle) 
 	}
 	return &LoaderPO{c}
 }
+
+// Loaders registered BY VALUE whose value is the zero value of their type: a field-less struct of built-in
+// defaults, a struct whose only field is left empty, a numeric type at 0. Each supplies a fixed document.
+type BuiltinDefaults struct{}
+
+func (BuiltinDefaults) LoadConfig() ([]byte, error) {
+	return []byte("srv:\n  fromdefaults: builtin\nb: builtin-b\n"), nil
+}
+
+type TenantLoader struct{ Tenant string }
+
+func (t TenantLoader) LoadConfig() ([]byte, error) {
+	return []byte("a: tenant-" + t.Tenant + "-default\ndb:\n  tenant: '" + t.Tenant + "'\n"), nil
+}
+
+type LevelLoader int
+
+func (l LevelLoader) LoadConfig() ([]byte, error) {
+	return []byte("c: level-" + itoa(int(l)) + "\n"), nil
+}
